@@ -82,6 +82,80 @@ fn n_try1(vm: &mut Vm<Host>, f: Value, x: Value) -> R {
 fn n_call0(vm: &mut Vm<Host>, f: Value) -> R {
     vm.run_function(f)
 }
+fn tint(i: i64) -> String {
+    format!("(TInt {})", out::z(i))
+}
+fn n_t4(vm: &mut Vm<Host>, a: i64, b: f64, c: bool, d: &str) -> R {
+    let e = out::list(vec![tint(a), tree(Value::Real(b), 2), tint(c as i64), format!("(TStr {})", out::bytes(d.as_bytes()))]);
+    vm.get_aux_mut().log.push(e);
+    Ok(Value::Nil)
+}
+fn n_nil1(vm: &mut Vm<Host>, a: Nilable<i64>) -> R {
+    match a.0 {
+        None => {
+            vm.get_aux_mut().log.push(out::list(vec!["TNil".to_string()]));
+            Ok(Value::Integer(-1))
+        }
+        Some(i) => {
+            vm.get_aux_mut().log.push(out::list(vec![tint(i)]));
+            Ok(Value::Integer(i))
+        }
+    }
+}
+fn n_tab1(vm: &mut Vm<Host>, t: &CaoLangTable) -> R {
+    let l = t.len() as i64;
+    vm.get_aux_mut().log.push(out::list(vec![tint(l)]));
+    Ok(Value::Integer(l))
+}
+fn n_cat2(vm: &mut Vm<Host>, a: &str, b: &str) -> R {
+    let e = out::list(vec![format!("(TStr {})", out::bytes(a.as_bytes())), format!("(TStr {})", out::bytes(b.as_bytes()))]);
+    vm.get_aux_mut().log.push(e);
+    Ok(Value::Integer((a.len() + b.len()) as i64))
+}
+/// number of parameters the callee will take from the stack, -1 if it is not callable
+fn callee_arity(f: Value) -> i64 {
+    use cao_lang::vm::runtime::cao_lang_object::CaoLangObjectBody;
+    use std::str::FromStr;
+    match f {
+        Value::Object(o) => unsafe {
+            match &o.as_ref().body {
+                CaoLangObjectBody::Function(f) => f.arity as i64,
+                CaoLangObjectBody::Closure(c) => c.function.arity as i64,
+                CaoLangObjectBody::NativeFunction(n) => {
+                    for (name, ar) in NATIVE_ARITIES {
+                        if Handle::from_str(name).unwrap() == n.handle {
+                            return *ar;
+                        }
+                    }
+                    -1
+                }
+                _ => -1,
+            }
+        },
+        _ => -1,
+    }
+}
+const NATIVE_ARITIES: &[(&str, i64)] = &[
+    ("log1", 1), ("sub2", 2), ("fail0", 0), ("str1", 1), ("mix3", 3), ("call1", 2), ("try1", 2), ("call0", 1),
+    ("t4", 4), ("nil1", 1), ("tab1", 1), ("cat2", 2), ("rb1", 2), ("__min", 2), ("__max", 2), ("__sort", 2), ("__to_array", 1),
+];
+pub static RB1_OK: std::sync::atomic::AtomicU64 = std::sync::atomic::AtomicU64::new(0);
+pub static RB1_ERR: std::sync::atomic::AtomicU64 = std::sync::atomic::AtomicU64::new(0);
+/// like call1, and records the stack heights before and after run_function
+fn n_rb1(vm: &mut Vm<Host>, f: Value, x: Value) -> R {
+    let (h0, d0) = cao_lang::verif_hooks::stack_heights(&vm.runtime_data);
+    let arity = callee_arity(f);
+    vm.stack_push(x)?;
+    let r = vm.run_function(f);
+    let (h1, d1) = cao_lang::verif_hooks::stack_heights(&vm.runtime_data);
+    let e = out::list(vec![
+        format!("(TStr {})", out::bytes(b"rb1")),
+        tint(h0 as i64), tint(d0 as i64), tint(h1 as i64), tint(d1 as i64), tint(r.is_ok() as i64), tint(arity),
+    ]);
+    vm.get_aux_mut().log.push(e);
+    if r.is_ok() { RB1_OK.fetch_add(1, std::sync::atomic::Ordering::Relaxed); } else { RB1_ERR.fetch_add(1, std::sync::atomic::Ordering::Relaxed); }
+    r
+}
 
 pub fn new_vm(budget: u64) -> Vm<'static, Host> {
     let mut vm = Vm::new(Host { log: vec![] }).unwrap().with_max_iter(budget);
@@ -95,6 +169,11 @@ pub fn new_vm(budget: u64) -> Vm<'static, Host> {
     vm.register_native_function("call1", into_f2(n_call1)).unwrap();
     vm.register_native_function("try1", into_f2(n_try1)).unwrap();
     vm.register_native_function("call0", into_f1(n_call0)).unwrap();
+    vm.register_native_function("t4", into_f4(n_t4)).unwrap();
+    vm.register_native_function("nil1", into_f1(n_nil1)).unwrap();
+    vm.register_native_function("tab1", into_f1(n_tab1)).unwrap();
+    vm.register_native_function("cat2", into_f2(n_cat2)).unwrap();
+    vm.register_native_function("rb1", into_f2(n_rb1)).unwrap();
     vm
 }
 
@@ -105,6 +184,11 @@ fn err_term(e: &ExecutionErrorPayload) -> String {
         UnexpectedEndOfInput => "EUnexpectedEndOfInput".into(),
         ExitCode(_) => "EExitCode".into(),
         InvalidInstruction(_) => "EInvalidInstruction".into(),
+        InvalidArgument { context: Some(c) } if c.starts_with("Failed to convert function input #") => {
+            let rest = &c["Failed to convert function input #".len()..];
+            let num: String = rest.chars().take_while(|ch| ch.is_ascii_digit()).collect();
+            format!("(EConversion {})", out::n(num.parse().unwrap_or(0)))
+        }
         InvalidArgument { .. } => "EInvalidArgument".into(),
         VarNotFound(s) => {
             if s.starts_with("Failed to set local variable") {
@@ -355,6 +439,7 @@ fn emit_program(w: &mut CaseWriter, name: &str, m: Module, extra_budgets: &[u64]
             Kind::Err(e) => {
                 let short = e.trim_start_matches('(').split(' ').next().unwrap_or("").to_string();
                 w.count(&format!("outcome.{}", short));
+                if e.contains("EConversion") { w.count("outcome.conversion_error"); }
             }
         }
     }
@@ -366,9 +451,20 @@ fn emit_program(w: &mut CaseWriter, name: &str, m: Module, extra_budgets: &[u64]
 
 pub fn gen(a: &Args) {
     let mut rng = Rng::new(a.seed);
-    let module = if a.prop == "C03" { "C03Check" } else { "VmCheck" };
+    let module = if a.prop == "C03" { "C03Check" } else if a.prop == "C18" { "C18Check" } else { "VmCheck" };
     let mut w = CaseWriter::new(&a.out, module, 8);
     w.push(opcode_table_case(), false);
+    if a.prop == "C18" {
+        // names reserved for the library cannot be registered; other names can
+        let mut vm = new_vm(1);
+        let noop = |_vm: &mut Vm<Host>| -> R { Ok(Value::Nil) };
+        let r1 = vm.register_native_function("__mine", noop).is_err();
+        let r2 = vm.register_native_function("_x", noop).is_ok();
+        let r3 = vm.register_native_function("__min", noop).is_err();
+        let r4 = vm.register_native_function("a__b", noop).is_ok();
+        w.push(format!("(VmReserved {})", out::list(vec![out::b(r1), out::b(r2), out::b(r3), out::b(r4)])), false);
+        w.count("reserved_names");
+    }
     for e in vmgen::corpus() {
         w.count(&format!("corpus.{}", e.name));
         emit_program(&mut w, e.name, e.module, &e.budgets, e.history, e.clear, &mut rng);
@@ -382,6 +478,7 @@ pub fn gen(a: &Args) {
         let mut sub = Rng::new(rng.next());
         let (m, feats) = {
             let mut g = vmgen::Gen::new(&mut sub, reals);
+            g.native_heavy = a.prop == "C18";
             let m = g.module();
             (m, g.features.clone())
         };
@@ -391,6 +488,8 @@ pub fn gen(a: &Args) {
         emit_program(&mut w, &format!("random #{} (seed {})", i, a.seed), m, &[], history, clear, &mut rng);
     }
     for (f, c) in features { w.count_n(&format!("feature.{}", f), c); }
+    w.count_n("rb1.callee_ok", RB1_OK.load(std::sync::atomic::Ordering::Relaxed));
+    w.count_n("rb1.callee_failed", RB1_ERR.load(std::sync::atomic::Ordering::Relaxed));
     w.finish(serde_json::json!({"profile": if cfg!(debug_assertions) { "debug" } else { "release" }}));
 }
 
